@@ -140,6 +140,10 @@ pub struct AdvCase {
     pub cert_names: Vec<String>,
     /// true: Z dials the honest node; false: the honest node dials Z (which presents the certificate)
     pub z_dials: bool,
+    /// Z dials only: the same key first pays a fully valid visit (hello and certificate for the
+    /// listener's primary name), disconnects, and only then makes the attempt described above
+    #[serde(default)]
+    pub prior_valid_visit: bool,
 }
 
 fn name_pool() -> BoxedStrategy<String> {
@@ -173,6 +177,22 @@ pub fn adv_case(c: &AdvCase, obs: &mut Obs) -> Result<(), Fail> {
             if !sni_valid {
                 obs.label("discarded:sni-not-a-dns-name");
                 return Ok(());
+            }
+            if c.prior_valid_visit {
+                let primary = c.listener.primary_name();
+                let good = Presented { chain: vec![adv::self_signed(&z_seed, &[primary.clone()], Validity::Valid)], signer: SignerKind::Ed25519(z_seed) };
+                match within(20_000, adv::dial_and_await_ack(&ep, adv::client_config(Some(&good), Arc::new(Mutex::new(Vec::new()))), l.addr(), &primary)).await {
+                    Ok(Ok(conn)) => {
+                        sleep_ms(50).await;
+                        conn.close(0u32.into(), b"");
+                        for _ in 0..100 {
+                            if !l.net.peers().contains(&z_id) { break; }
+                            sleep_ms(20).await;
+                        }
+                        obs.label("same-key-visited-validly-before");
+                    }
+                    other => vfail!("c14:same-network-refused", "listener with primary {:?} refused a fully valid visit: {:?}", primary, other.map(|r| r.map(|_| ()))),
+                }
             }
             let r = within(20_000, adv::dial_and_await_ack(&ep, adv::client_config(Some(&presented), seen), l.addr(), &c.sni)).await;
             let admitted = matches!(r, Ok(Ok(_)));
@@ -232,12 +252,12 @@ impl Part for Adversarial {
     type Case = AdvCase;
     fn name(&self) -> &'static str { "adversarial-names" }
     fn rule(&self) -> &'static str {
-        "an adversarial raw QUIC endpoint with a valid key dials an honest listener claiming SNI s while presenting a certificate with SANs c (s and c chosen independently from the name pool: the grid names, wildcards, label-suffix/prefix relatives, case variants, random), or is dialed by an honest node and presents c; oracle: admitted => s is an accepted name AND the certificate is valid for an accepted name (x509 reference); the honest dialer only ever claims its primary name and accepts only certificates valid for it; matching configurations are admitted; non-trivial = SNI accepted but certificate issued for another name (the path the suite never reaches) or vice versa; distinct by case"
+        "an adversarial raw QUIC endpoint with a valid key dials an honest listener claiming SNI s while presenting a certificate with SANs c (s and c chosen independently from the name pool: the grid names, wildcards, label-suffix/prefix relatives, case variants, random), optionally after the same key paid a fully valid visit and disconnected (so that nothing remembered about a key can replace the checks), or is dialed by an honest node and presents c; oracle: admitted => s is an accepted name AND the certificate is valid for an accepted name (x509 reference); the honest dialer only ever claims its primary name and accepts only certificates valid for it; matching configurations are admitted; non-trivial = SNI accepted but certificate issued for another name (the path the suite never reaches) or vice versa; distinct by case"
     }
     fn strategy(&self, _t: Tier) -> BoxedStrategy<AdvCase> {
         let cfg = (0u8..6, prop::option::of(0u8..6)).prop_map(|(primary, alternate)| NameCfg { primary, alternate: alternate.filter(|a| *a != primary) });
-        (cfg, name_pool(), prop::collection::vec(name_pool(), 1..3), any::<bool>())
-            .prop_map(|(listener, sni, cert_names, z_dials)| AdvCase { listener, sni, cert_names, z_dials })
+        (cfg, name_pool(), prop::collection::vec(name_pool(), 1..3), any::<bool>(), prop::bool::weighted(0.3))
+            .prop_map(|(listener, sni, cert_names, z_dials, prior_valid_visit)| AdvCase { listener, sni, cert_names, z_dials, prior_valid_visit })
             .boxed()
     }
     fn run(&self, c: &AdvCase, obs: &mut Obs) -> Result<(), Fail> { adv_case(c, obs) }
